@@ -1356,6 +1356,13 @@ impl<F: Function> Function for ZeroDivisorGuard<F> {
         self.0.domain()
     }
 
+    fn co_domain(&self) -> DataType {
+        // The divisor of the whole domain may be 0
+        DataType::integer()
+            .super_union(&DataType::float())
+            .unwrap_or(DataType::Any)
+    }
+
     fn super_image(&self, set: &DataType) -> Result<DataType> {
         if let DataType::Struct(fields) = set {
             if let [(_, dividend), (_, divisor)] = fields.fields() {
